@@ -86,6 +86,21 @@ DETECT = {
     "C10-F": ("C10", ["C10"], "as C10-E"),
     "C16-E": ("C16", ["C16"], ""),
     "C16-F": ("C16", ["C16"], ""),
+    "C02-E": ("C02", ["C02"], ""),
+    "C09-E": ("C09", ["C09"], "escaped at first: needed a worker that ends ITSELF with exit status 0 (invisible to SIGCHLD); kill plans of the virtual scheduler now carry an exit status"),
+    "C09-F": ("C09", ["C09"], ""),
+    "C11-E": ("C11", ["C11"], ""),
+    "C11-F": ("C11", ["C11"], "escaped at first: needed a map function that raises queue.Empty itself (added)"),
+    "C12-E": ("C12", ["C12"], ""),
+    "C12-F": ("C12", ["C12"], ""),
+    "C13-E": ("C13", ["C13"], ""),
+    "C13-F": ("C13", ["C13", "C08"], "same change as C08-E, found independently"),
+    "C14-E": ("C14", ["C14"], "at first only a K-D divergence: reset(state); reset() without a request in between is now an oracle case (the restarted epoch is the loaded epoch's own sequence)"),
+    "C14-F": ("C14", ["C14"], "checkpoint after exactly 1000 draws"),
+    "C15-E": ("C15", ["C15"], "at first only a K-D divergence: foreign draws from the sampler's generator between iter() and the first index are now an oracle case (single-permutation epochs)"),
+    "C15-F": ("C15", ["C15"], ""),
+    "C17-E": ("C17", ["C17"], ""),
+    "C17-F": ("C17", ["C17"], "escaped at first: needed a worker process that cannot be started (Process.start raising in the virtual context) while earlier ones are up (added)"),
     "C13-D": ("C13", ["C01"], "_sampler_iter_yielded not zeroed on _reset: caught by C01's resume oracle with persistent workers (second epoch), not by C13"),
 }
 
